@@ -3,7 +3,7 @@
 set -u
 prop=$1; tree=$2
 cq=/root/scratch/coq-mut-$prop-$$
-mkdir -p /root/scratch && rm -rf "$cq" && cp -a /verif/coq "$cq" && rm -rf "$cq/CorrRun" "$cq/.lock"
+mkdir -p /root/scratch && rm -rf "$cq" && mkdir -p "$cq" && rsync -a --exclude CorrRun --exclude .lock /verif/coq/ "$cq"/
 cd /verif && VERIF_REPO="$tree" VERIF_COQDIR="$cq" VERIF_SEARCH_MAX=${VERIF_SEARCH_MAX:-3000} ./check "$prop" ${3:-} 2>&1 | grep -vE "^KNOWN-FINDING" | tail -${TAILN:-12}
 rc=${PIPESTATUS[0]}
 rm -rf "$cq"
